@@ -51,7 +51,7 @@ Definition std_targets : list tdesc :=
 (* one case: how the value was built; errors.Is against each standard target (0 false, 1 true,
    2 panic); errors.Is against the values built at the listed nodes of the description itself;
    then [errors.As RequestTimeoutError; As ErrorWithRetry; As ConnectionError; As Error;
-   err.(ErrorWithRetry); err == io.EOF] *)
+   err.(ErrorWithRetry); err == io.EOF; err.Error() panicked] *)
 Definition chain_case := (desc * list N * list (nat * N) * list bool * list N * list (nat * N))%type.
 (* very last component: errors.Is against second builds (TTwin) of hand-made wrapper nodes *)
 (* last component: the Is method called directly against the standard targets; [] if the value has none *)
@@ -76,7 +76,7 @@ Definition chain_model_ok (c : chain_case) : bool :=
   let e := build d in
   (length std =? length std_targets)%nat
   && forallb (fun tn => res_code (errors_is e (tbuild d (fst tn))) =? snd tn) (targets_of c)
-  && bool_list_eqb (map (fun k => errors_as k e) as_kinds ++ [implements_retry e; is_bare_eof e]) flags
+  && bool_list_eqb (map (fun k => errors_as k e) as_kinds ++ [implements_retry e; is_bare_eof e; error_panics e]) flags
   && n_list_eqb (method_codes d) meth.
 
 (* --- the property on the observations, from the description alone --- *)
@@ -93,20 +93,6 @@ Fixpoint spec_bare_eof (d : desc) : bool :=
   | _ => false
   end.
 
-(* a RequestTimeoutError is somewhere along the chain *)
-Fixpoint spec_has_rt (d : desc) : bool :=
-  match d with
-  | DLib _ d' | DFmt _ d' | DConn _ _ d' => spec_has_rt d'
-  | DCall _ ck c =>
-      match ck with
-      | CkRetryTimeout _ => true
-      | CkRetryRetx _ _ _ => true
-      | CkRetryPing true FCtx1 => true
-      | _ => uses_cause ck && spec_has_rt c
-      end
-  | _ => false
-  end.
-
 (* the value is what an interrupted QoS>=1 publish / subscribe / unsubscribe returned, and the
    cause was not io.EOF itself *)
 Definition spec_must_retry (d : desc) : bool :=
@@ -114,6 +100,7 @@ Definition spec_must_retry (d : desc) : bool :=
   | DCall _ (CkReq k _) _ => retryable_kind k && negb (spec_bare_eof d)
   | DCall _ (CkRetryTimeout k) _ => retryable_kind k
   | DCall _ (CkRetryRetx k _ _) _ => retryable_kind k
+  | DCall _ (CkRetryClosed k _) _ => retryable_kind k
   | _ => false
   end.
 
@@ -146,7 +133,8 @@ Definition chain_spec_ok (c : chain_case) : bool :=
   && forallb (sent_target_ok d) (combine std_targets meth)     (* the Is method itself must say the same *)
   && (if shaped d then
         (if spec_bare_eof d then nth 5 flags false else true)                  (* io.EOF passed through unwrapped *)
-        && (if spec_has_rt d then nth 0 flags false else true)                 (* identifiable as RequestTimeoutError *)
+        && Bool.eqb (nth 0 flags false) (spec_has_rt d)      (* RequestTimeoutError iff a response timeout expired *)
+        && negb (nth 6 flags true)                           (* err.Error() does not panic *)
         && (if spec_must_retry d then nth 4 flags false && nth 1 flags false else true)  (* implements ErrorWithRetry *)
       else true).
 
